@@ -619,7 +619,19 @@ pub fn marshal_rtcp_packets(packets: &[RtcpPacket]) -> RtpResult<Vec<u8>> {
                 write_rtcp_packet(&mut out, RTCP_PSFB_APP, RTCP_PSFB, build_remb_body(remb)?)
             }
             RtcpPacket::TransportWideCc(twcc) => {
-                write_rtcp_packet(&mut out, RTCP_RTPFB_TWCC, RTCP_RTPFB, build_twcc_body(twcc))
+                // The status/delta payload has no length of its own: align it with
+                // RFC 3550 padding (P bit + count) so the receiver can strip it.
+                let mut body = build_twcc_body(twcc);
+                let pad = (4 - body.len() % 4) % 4;
+                let start = out.len();
+                if pad != 0 {
+                    body.resize(body.len() + pad - 1, 0);
+                    body.push(pad as u8);
+                }
+                write_rtcp_packet(&mut out, RTCP_RTPFB_TWCC, RTCP_RTPFB, body);
+                if pad != 0 {
+                    out[start] |= 0x20;
+                }
             }
         }
     }
